@@ -16,9 +16,9 @@ import QclibModel.Proofs.SchmidtAlg
   Proved here, for every size (about the model `Model/Schmidt.lean`, tied to the code by the
   harness): the rank rule (`C07_rank_rule`), the overlap / norms of the truncation under the SVD
   specification (`C07_fidelity`), exactness (`C07_exact_when_full`), the Plesch assembly algebra
-  (`C07_assembly`) and that for an increasing partition list the registers `reg_b`, `reg_a` carry
-  exactly the row / column bits of the reshape (`C07_placement`), which fails for unsorted lists
-  (`C07_placement_unsorted_witness`).
+  (`C07_assembly`) and that for every duplicate-free partition list, in any order, the registers `reg_b`, `reg_a`
+  carry exactly the row / column bits of the reshape (`C07_placement`; the code sorts the list
+  before forming the registers).
 
   NOT proved (hypotheses / cited):
   * Eckart–Young–Mirsky ("no state of that Schmidt rank can exceed it") is a theorem of
@@ -83,6 +83,7 @@ theorem C07_fidelity (rows cols k r : Nat) (hle : r ≤ k) (U : Nat → Nat → 
     norm_target rows cols k U s V hU hV hs⟩
   rw [h1, hNs, hNN]
 
+omit [StarRing K] in
 /-- **C07 (exact when the rank reaches the Schmidt rank).**  If the coefficients dropped by the
 rank rule vanish, the prepared vector `undo(U[:, :r'] diag(s/N) V[:r', :])` is `v / N` entry by
 entry — the input itself for a unit vector (`N = 1`). -/
@@ -101,11 +102,33 @@ theorem C07_exact_when_full (n : Nat) (P : List Int) (src : List Nat) (h : sepAx
 
 end Field
 
-/-- Non-vacuity of the hypotheses of `C07_fidelity` / `C07_exact_when_full`: over `ℚ` with trivial
-conjugation, `U = V = I₂`, `s = (1, 0)`, `k = 2`, `r = 1`, `N = 1`. -/
-example : (∀ i j, i < 2 → j < 2 →
-      gramCols (K := ℚ) 2 (fun r i => if r = i then 1 else 0) i j = if i = j then 1 else 0) := by
-  decide
+/-- Non-vacuity of `C07_exact_when_full`: the all-ones vector on two qubits, partition `[0]`, two
+terms of which the second has coefficient 0 and is dropped. -/
+example {K : Type} [Field K] (i : Nat) (hi : i < 2 ^ 2) :
+    schmidtCompose 2 [0] 1 (fun _ _ => (1 : K)) (renorm 1 (fun i => if i = 0 then 1 else 0))
+      (fun _ _ => 1) i = (fun _ => (1 : K)) i :=
+  (C07_exact_when_full 2 [0] [0] (by decide) (fun _ => 1) 2 1 _ _ _ 1
+    (by intro r c _ _; simp [sepMat, sumTo]) (by decide)
+    (by intro i h1 h2; have : i = 1 := by omega
+        subst this; simp) i hi).2 rfl
+
+/-- Non-vacuity of the hypotheses of `C07_fidelity`: in any field with conjugation, `U = V = I₂`,
+`s = (1, 0)`, `k = 2`, `r = 1`, `N = 1` (the target `|00⟩`, truncated to one term). -/
+example {K : Type} [Field K] [StarRing K] :
+    inner2 star 2 2
+      (composeMat 2 (fun r i => if r = i then (1 : K) else 0) (fun i => if i = 0 then 1 else 0)
+        (fun i c => if i = c then 1 else 0))
+      (composeMat 1 (fun r i => if r = i then (1 : K) else 0)
+        (renorm 1 (fun i => if i = 0 then 1 else 0)) (fun i c => if i = c then 1 else 0)) = 1 := by
+  refine (C07_fidelity (K := K) 2 2 2 1 (by omega) _ _ _ 1 ?_ ?_ ?_ (star_one K) one_ne_zero ?_).1
+  · intro i j hi hj
+    rcases (by omega : i = 0 ∨ i = 1) with rfl | rfl <;>
+      rcases (by omega : j = 0 ∨ j = 1) with rfl | rfl <;> simp [gramCols, sumTo]
+  · intro i j hi hj
+    rcases (by omega : i = 0 ∨ i = 1) with rfl | rfl <;>
+      rcases (by omega : j = 0 ∨ j = 1) with rfl | rfl <;> simp [gramRows, sumTo]
+  · intro i; split <;> simp
+  · simp [sumTo]
 
 /-- **C07 (Plesch assembly).**  After phase 1–2 the amplitude on (`reg_b` reads `x`, `reg_a` reads
 `y`) is `t_x` if `x = y < rank` and 0 otherwise; applying `U` on `reg_b` and `W = Vᵀ` on `reg_a`
@@ -117,39 +140,46 @@ theorem C07_assembly {R : Type} [CommRing R] (A B rank : Nat) (hA : rank ≤ A) 
       = composeMat rank U t (fun j y => W y j) x' y' :=
   assembly A B rank hA hB U W t x' y'
 
-/-- **C07 (register placement).**  `partition` an increasing list of qubits `< n`.  The code
-decomposes across `sorted(partition) = partition`, puts `U` on `reg_b` (gate qubit `m` ↦
-`reg_b[m]`), `Vᵀ` on `reg_a = partition[::-1]`, and reverses the bits, after which circuit qubit
-`q` is bit `n-1-q` of the state-vector index `i`.  Then bit `m` of the row index of `i` is the
-value of qubit `reg_b[m]` and bit `m` of its column index the value of qubit `reg_a[m]`: the
-amplitude at `i` is the assembled matrix at `sepIndex i`, i.e. the prepared vector is
-`undo(assembled matrix)` — for every `n`. -/
-theorem C07_placement (n : Nat) (P : List Nat) (hs : List.Pairwise (· < ·) P) (hlt : ∀ a ∈ P, a < n)
+/-- **C07 (register placement).**  `partition` ANY duplicate-free list of qubits `< n`, in any
+order.  The code sorts it (`_create_quantum_circuit`), decomposes across the sorted list `S`
+(`sepAxes`), puts `U` on `reg_b` (gate qubit `m` ↦ `reg_b[m]`), `Vᵀ` on `reg_a = S[::-1]`, and
+reverses the bits, after which circuit qubit `q` is bit `n-1-q` of the state-vector index `i`.  Then
+bit `m` of the row index of `i` is the value of qubit `reg_b[m]` and bit `m` of its column index the
+value of qubit `reg_a[m]`: the amplitude at `i` is the assembled matrix at `sepIndex i`, i.e. the
+prepared vector is `undo(assembled matrix)` — for every `n` and every order of the list. -/
+theorem C07_placement (n : Nat) (P : List Nat) (hd : P.Nodup) (hlt : ∀ a ∈ P, a < n)
     (lr : Int) (eff : Nat) (iso uni : String) (plan : Plan)
     (h : lowRankPlan n P lr eff iso uni = some plan) (i : Nat) :
-    sepAxes n (P.map Int.ofNat) = some P ∧
+    ∃ S, sepAxes n (P.map Int.ofNat) = some S ∧ S.Perm P ∧ List.Pairwise (· < ·) S ∧
     (∀ m (hm : m < plan.regB.length),
-        (sepIndexAx n P i).1.testBit m = i.testBit (n - 1 - plan.regB[m])) ∧
+        (sepIndexAx n S i).1.testBit m = i.testBit (n - 1 - plan.regB[m])) ∧
     (∀ m (hm : m < plan.regA.length),
-        (sepIndexAx n P i).2.testBit m = i.testBit (n - 1 - plan.regA[m])) ∧
+        (sepIndexAx n S i).2.testBit m = i.testBit (n - 1 - plan.regA[m])) ∧
     plan.regB.length = n - P.length ∧ plan.regA.length = P.length := by
-  have hax := sepAxes_increasing n P hs hlt
+  have hax := sepAxes_nat n P hd hlt
   have hv := sepAxes_valid hax
+  have hperm := perm_isort (fun a b : Nat => decide (a ≤ b)) P
+  have hs := pairwise_isort (fun a b : Nat => decide (a ≤ b))
+    (fun a b c h1 h2 => by simp at *; omega) (fun a b => by simp; omega) P
+  have hn : (isort (fun a b : Nat => decide (a ≤ b)) P).Nodup := hperm.nodup_iff.mpr hd
   unfold lowRankPlan at h
   split at h
   · cases h
   · cases h
-    refine ⟨hax, fun m hm => row_bit_rev hv i m hm, fun m hm => col_bit_rev hv i m hm, ?_, ?_⟩
-    · simp [length_restAxes hv]
-    · simp
+    refine ⟨_, hax, hperm, (hs.and hn).imp (fun ⟨h1, h2⟩ => by simp at h1; omega),
+      fun m hm => row_bit_rev hv i m hm, fun m hm => col_bit_rev hv i m hm, ?_, ?_⟩
+    · simp [length_restAxes hv, hperm.length_eq]
+    · simp [hperm.length_eq]
 
-/-- **C07 (unsorted partition lists are placed wrongly).**  For `partition = [1, 0]` on two qubits
-the decomposition is across `sorted = [0, 1]` but `reg_a = [0, 1]` (not `[1, 0]`): bit 0 of the
-column index of `i = 1` is not the value of qubit `reg_a[0]`. -/
-theorem C07_placement_unsorted_witness :
-    ∃ plan, lowRankPlan 2 [1, 0] 0 2 "ccd" "qsd" = some plan ∧
-      sepAxes 2 [1, 0] = some [0, 1] ∧
-      (sepIndexAx 2 [0, 1] 1).2.testBit 0 ≠ (1 : Nat).testBit (2 - 1 - plan.regA[0]!) := by
-  refine ⟨_, rfl, by decide, by decide⟩
+/-- Non-vacuity of `C07_placement`: three qubits, partition given as the unsorted list `[2, 0]`, no
+rank limit, two coefficients: `reg_b = [1]`, `reg_a = [2, 0]` (= sorted `[0, 2]` reversed). -/
+example : ∃ plan, lowRankPlan 3 [2, 0] 0 2 "ccd" "qsd" = some plan ∧ plan.regB = [1] ∧
+    plan.regA = [2, 0] ∧ plan.rank = 2 ∧ plan.cxs = [(1, 2)] := ⟨_, rfl, by decide⟩
+
+/-- The unsorted list `[1, 0]` on two qubits (the input on which the code was wrong before
+`_create_quantum_circuit` sorted the partition): `reg_a = [1, 0]`, the reverse of the sorted list
+`[0, 1]` the decomposition is taken across. -/
+example : ∃ plan, lowRankPlan 2 [1, 0] 0 2 "ccd" "qsd" = some plan ∧ plan.regA = [1, 0] ∧
+    sepAxes 2 [1, 0] = some [0, 1] := ⟨_, rfl, by decide⟩
 
 end Qclib
